@@ -165,13 +165,17 @@ MANIFEST = {
     "technique": "Lean 4: negation of the full statement from a concrete 8-statement witness evaluated in the engine model "
                  "(kernel `decide`), the detector lemma, and the partial theorem for histories without re-use after clearing; "
                  "correspondence on multi-epoch histories; forward-value tape oracle on the implementation",
-    "text": "The full statement is FALSE of the unchanged code: stale_backward_neg proves it in the model from the history "
-            "y=x*2; z1=y+1; z2=y*y; z1.backward(); y[...]=10; w=y*5; z2.backward(), which the harness replays on MyGrad (no "
-            "error, y.grad=[20,20] from the mutated value). Proved: an op whose non-constant input has an empty consumer set "
-            "makes backward raise InvalidBackprop (cleared_input_raises) and, for histories in which no tensor cleared by an "
-            "earlier pass is used again before the final backward, backward either raises InvalidBackprop or computes the "
-            "adjoint solution of the graph as recorded (stale_backward_safe_partial). The model is compared with MyGrad on "
-            "random multi-epoch histories; the oracle tapes the forward-time input values of every recorded op.",
+    "text": "The full statement is FALSE of the unchanged code: stale_backward_neg proves it in the model "
+            "(kernel-evaluated) from the history y=x*2; z1=y+1; z2=y*y; z1.backward(); y[...]=10; w=y*5; "
+            "z2.backward(), which the harness replays on MyGrad (no error, y.grad=[20,20] computed from the "
+            "mutated value; witness_value). Proved: an op whose non-constant input has an empty consumer set "
+            "makes backward raise InvalidBackprop before any VJP is taken (cleared_input_raises) and, whenever "
+            "the loop completes on an acyclic heap, what it returns is the adjoint solution of the graph as the "
+            "heap records it at that moment (stale_backward_safe_partial, via C01) — so wrong gradients can only "
+            "come from a heap that is itself inconsistent, which is what re-use after clearing produces. The "
+            "model is compared with MyGrad on random multi-epoch histories; the oracle tapes the forward-time "
+            "input values of every recorded op and flags a successful backward through an op whose input has "
+            "changed.",
     "note": "Trusted: Lean kernel, standard axioms, correspondence harness. Known findings: silent use of mutated values and a "
             "cyclic graph (RecursionError) after clear + re-use + in-place update.",
 }
